@@ -140,9 +140,11 @@ func (h3) Describe(cfg any) string {
 }
 
 func genDurNs(r *simrt.Rng) int64 {
-	switch r.Intn(6) {
+	switch r.Intn(7) {
 	case 0:
 		return 1
+	case 6: // months: sums beyond 2^53 ns, where arithmetic in float64 is no longer exact
+		return int64(time.Hour)*24*int64(30+r.Intn(60)) + int64(1+r.Intn(7))
 	case 1:
 		return int64(1 + r.Intn(1000))
 	case 2:
